@@ -1142,6 +1142,7 @@ func (c *c17Checker) scenarios(m *c17Module, rng *core.Rng, full bool) []c17Scen
 func runC17(r *core.Run) (bool, string) {
 	r.SetRule("one evaluation = one goose command line (patterns x cwd/-dir x flags x prior state of -out) on a generated module whose packages are labelled good/bad/broken by construction, judged on exit status, files under -out (placement, bytes vs a solo run, partial output by definition names read with the Coq reader), " +
 		"mtime+inode of files that already had the right content (and an strace write-open monitor on some), and the matched set given by `go list -e -tags goose` with the same patterns in the same directory; " +
+		"pattern-spelling family (c17patterns.go): directories named like standard-library packages, like a dependency's path, like the module's own path, each named bare / with a trailing slash / ./dir / dir/... / absolute / by import path / several at once / with -dir / from a subdirectory; a matched standard-library package is labelled by a goose run on the same import path in a module without such a directory; " +
 		"distinct = (pattern class, good/bad/broken mix, flags, cwd, -dir, prior state)")
 	r.Assume("`go list -e -tags goose <patterns>` run in the directory goose loads from is the reference for which packages and files a pattern selects")
 	r.Assume("a pattern that matches no package at all: goose's deliberate `patterns matched no packages` failure is accepted (either exit status); only no-crash and nothing-written are judged")
@@ -1156,6 +1157,9 @@ func runC17(r *core.Run) (bool, string) {
 	} else {
 		r.Inconclusive("strace-not-available")
 	}
+	// the pattern-spelling family (c17patterns.go) has modules and a random stream of its own and runs beside the rest
+	patDone := make(chan bool, 1)
+	go func() { patDone <- c.runPatternSpellings(r, core.NewRng(r.Seed, "c17-pattern-spellings")) }()
 	nmods := r.Pick(3, 10)
 	rng := core.NewRng(r.Seed, "c17")
 	for k := 0; k < nmods; k++ {
@@ -1223,6 +1227,9 @@ func runC17(r *core.Run) (bool, string) {
 	if !c.runFractions(r) {
 		return false, "cannot write the fraction module"
 	}
+	if !<-patDone {
+		return false, "cannot write the pattern-spelling module"
+	}
 	n := r.Evals()
 	if n < 30 {
 		return false, fmt.Sprintf("only %d invocations judged (floor 30)", n)
@@ -1232,6 +1239,9 @@ func runC17(r *core.Run) (bool, string) {
 	}
 	if r.GetCount("build_constraint_files_selected_and_translated") < 10 || r.GetCount("build_constraint_pairs_judged") < 5 || r.GetCount("prefix_sibling_scenarios") < 5 || r.GetCount("fraction_scenarios") < 10 {
 		return false, "too few build-constraint / prefix-sibling observations"
+	}
+	if r.GetCount("pattern_family_command_lines_judged") < 15 || r.GetCount("pattern_family_std_packages_matched") < 4 {
+		return false, "too few pattern-spelling observations (command lines judged / standard-library packages matched)"
 	}
 	return true, ""
 }
